@@ -314,7 +314,7 @@ package state
 //@ spec Reg(m) = forall(t bitcoin.Hash32, has(m.txs, t) ==> registeredFrom(m, t, 0))
 
 //@ func (*MemPool).removeTransaction
-//@   serves C05 C14 C03 C06
+//@   serves C05 C14 C03 C06 C07 C04
 //@   requires held(memPool.mutex) && InvTx(memPool) && InvIn(memPool) && Distinct(memPool)
 //@   requires {reg} Reg(memPool)
 //@   ensures distinct: Distinct(memPool)
@@ -338,7 +338,7 @@ package state
 //@   loop 1 invariant 0 <= _i1 && _i1 <= len(otherHashes) && forall(c, 0, _i1, otherHashes[c] != hash)
 
 //@ func (*MemPool).RemoveTransaction
-//@   serves C05 C14 C03 C06
+//@   serves C05 C14 C03 C06 C07 C04
 //@   atomic mutex
 //@   requires InvTx(memPool) && InvIn(memPool) && Distinct(memPool)
 //@   requires {reg} Reg(memPool)
@@ -368,7 +368,7 @@ package state
 // contract (C05) takes the transaction out of the pool and out of the index under each of its
 // outpoints — and reports exactly the transactions it evicts.
 //@ func (*MemPool).Conflicting
-//@   serves C06 C05 C03
+//@   serves C06 C05 C03 C07
 //@   opt nomonitor = 1
 //@   opt partial = 1
 //@   opt abstract = removeTransaction
@@ -381,7 +381,10 @@ package state
 // recorded as re-requested (and dropped from the tracker) is in a get-data message that was handed
 // to the transmitter — no message with entries is left unsent when it returns.
 //@ func (*TxTracker).Check
-//@   serves C14
+//@   serves C14 C12 C07
+// a re-request is never an announcement by the trusted peer: the tracker (every connection has one,
+// untrusted ones too) asks with trusted == false, so it can never raise the trusted mark
+//@   assert rerequest_never_vouches at call AddRequest : [C12 C07 C14] !arg3
 //@   opt nomonitor = 1
 //@   opt partial = 1
 //@   requires tracker != nil && tracker.txids != nil && mempool != nil && InvTx(mempool) && !held(mempool.mutex)
